@@ -15,7 +15,7 @@ def addresses(arch, band):
 
 def run(ctx):
     quick = ctx.tier == "quick"
-    ctx.cov["rule"] = ("(a) (tree, options, other options): backing up an unchanged tree again writes no data block and records identical addresses; "
+    ctx.cov["rule"] = ("(a) (tree, options, other options): backing up an unchanged tree again writes no data block and records identical addresses; (a') the same when only recorded metadata differs (owner option toggled, chmod/chown with content, size and mtime untouched); "
                        "(b) random histories: no block file that is present (non-empty) is ever written again; (c) every crash point of an "
                        "interrupted backup, then a resumed backup: no block the interrupted run stored is rewritten, and entries it recorded for "
                        "unchanged files are reused (same addresses); + exact L4. non-trivial = distinct case with at least one non-empty file")
@@ -27,6 +27,51 @@ def run(ctx):
         cases.append({"id": f"u{t}", "tree": tree, "o": (o1, o2), "steps": [
             {"op": "init"}, {"op": "mktree", "path": "src", "tree": tree}, {"op": "walk"}, {"op": "backup", "opts": o1}, {"op": "arch"},
             {"op": "backup", "opts": o2}, {"op": "arch"}]})
+    # (a') nothing but recorded metadata differs from the previous version -- the owner option toggled, or files chmod-ed /
+    # chown-ed with content, size and mtime untouched -- after small files were stored over two versions: no data block is
+    # written and every file keeps its addresses
+    mcases = []
+    for t in range(12 if quick else 300):
+        ta = scen.small_tree(ctx.rng, big=True)
+        tb = json.loads(json.dumps(ta))
+        for k in range(ctx.rng.randrange(2, 5)):
+            tb["c"][f"later{k}"] = {"k": "f", "data": gen.rand_bytes(ctx.rng, ctx.rng.choice([2, 5, 9])).hex(), "mode": 0o644, "mtime": 10**18 + 400 + k}
+        tc = json.loads(json.dumps(tb))
+        o1 = dict(scen.small_opts(ctx.rng), sfc=ctx.rng.choice([16, 1 << 20]), mbs=ctx.rng.choice([8, 64]))
+        o3 = dict(o1)
+        if t % 2 == 0:
+            o3["owner"] = False                      # the two earlier versions recorded owners, this one does not
+        else:
+            files = [n_ for _p, n_ in gen.tree_paths(tc) if n_["k"] == "f"]
+            for n_ in ctx.rng.sample(files, min(len(files), 2)):
+                if ctx.rng.random() < 0.5:
+                    n_["mode"] = (n_.get("mode", 0o644) ^ 0o111) & 0o7777
+                else:
+                    n_["uid"], n_["gid"] = ctx.rng.choice([(1, 1), (2, 3), (65534, 65534)])
+        mcases.append({"id": f"md{t}", "steps": [
+            {"op": "init"}, {"op": "mktree", "path": "src", "tree": ta}, {"op": "backup", "opts": o1},
+            {"op": "mktree", "path": "src", "tree": tb}, {"op": "backup", "opts": o1}, {"op": "arch"},
+            {"op": "mktree", "path": "src", "tree": tc}, {"op": "backup", "opts": o3}, {"op": "arch"}]})
+    mres = ctx.cvh_run(mcases)
+    for c in mcases:
+        r = mres.get(c["id"])
+        ctx.count()
+        small = {"steps": c["steps"]}
+        if r is None or any(r[k].get("result") != "ok" for k in (2, 4, 7)):
+            ctx.oracle_fail("dedup/backup-failed", "backup failed: " + json.dumps(r and [r[k].get("err") or r[k].get("panic") for k in (2, 4, 7)])[:200], small)
+            continue
+        w = block_writes(r[7]["trace"])
+        if w or r[7]["value"]["written_blocks"]:
+            ctx.oracle_fail("dedup/unchanged-tree-writes-blocks", f"a backup in which only recorded metadata differs (owner option or chmod/chown, "
+                                                                  f"content, size and mtime untouched) wrote {len(w)} data blocks ({w[:2]})", small)
+            continue
+        a1, a2 = addresses(r[5]["arch"], 1), addresses(r[8]["arch"], 2)
+        if a1 != a2:
+            diff = [p_ for p_ in a1 if a1.get(p_) != (a2 or {}).get(p_)][:3]
+            ctx.oracle_fail("dedup/addresses-differ", f"a version in which only recorded metadata differs records other addresses for {diff}", small)
+            continue
+        ctx.dist("metadata_only_rebackups")
+        ctx.nontrivial("metadata-only:" + c["id"])
     res = ctx.cvh_run(cases)
     hs = []
     for c in cases:
